@@ -1,5 +1,7 @@
 import HmfVerif.Proofs.HeapSep
 import HmfVerif.Gen.Desc
+import HmfVerif.Gen.SharedState
+import HmfVerif.Spec.SharedState
 /-!
 # C11 — framework and component instances never share mutable state
 Statements about the address-level model `Heap` (dict-valued parameter cells, caller-owned dicts,
@@ -60,5 +62,11 @@ theorem repaired_setter_isolates :
     framework classes has a mutable default argument, no quantity body or `validate()` assigns to
     `self`, no plain-attribute reads of instance state, no sub-frameworks -/
 theorem real_classes_purity_facts : Gen.allDescs.all (fun c => c.2.wfFacts) = true := by decide +kernel
+
+/-- C11 ("nor class-level defaults … plugin registries", "two objects built from equal arguments stay equal whatever is done to a third"):
+    in the whole package the only stores into module-level names or class-level attributes made by functions and methods are those of the
+    plugin registry at class-definition time — no framework or component method keeps a module- or class-level memo, table or cache
+    (regenerated from every source file on each run) -/
+theorem no_state_outliving_instances : Gen.sharedStateWrites = Spec.sharedStateWrites := by decide
 
 end Hmf.C11
